@@ -36,13 +36,16 @@ def is_const_expr(n, known):
                    or (isinstance(e, ast.Attribute) and isinstance(e.value, ast.Name) and e.value.id not in ("self", "cls")) for e in n.elts)
     if isinstance(n, ast.Name) and n.id in known:
         return True
+    if isinstance(n, ast.Dict) and n.keys and len(n.keys) <= 24 and all(k is not None and (isinstance(k, ast.Constant) or _enum_member(k)) for k in n.keys) \
+            and all(isinstance(v, (ast.Name, ast.Constant)) or (isinstance(v, ast.Attribute) and isinstance(v.value, ast.Name) and v.value.id not in ("self", "cls")) for v in n.values):
+        return True  # a dispatch table
     if isinstance(n, ast.Call) and ast.unparse(n.func) in ("np.dtype", "numpy.dtype") and len(n.args) == 1 and isinstance(n.args[0], ast.Constant):
         return True
     return False
 
 
 def _enum_member(e):
-    return isinstance(e, ast.Attribute) and isinstance(e.value, ast.Name) and e.value.id[:1].isupper() and e.attr[:1].islower()
+    return isinstance(e, ast.Attribute) and isinstance(e.value, ast.Name) and e.value.id[:1].isupper() and not e.attr.startswith("_")
 
 
 def const_name_ok(name, class_level):
@@ -669,6 +672,15 @@ def normalise_module(tree: ast.Module):
     nts = namedtuples(tree)
     EXTRA_PURE.clear()
     EXTRA_PURE.update(nts)
+    CLASS_NAMES.clear()
+    for st in tree.body:
+        if isinstance(st, ast.ClassDef):
+            CLASS_NAMES.add(st.name)
+        elif isinstance(st, ast.ImportFrom):
+            for a in st.names:
+                nm = a.asname or a.name
+                if nm[:1].isupper() and not nm.isupper():
+                    CLASS_NAMES.add(nm)
     bases = {st.name: [ast.unparse(b).split("[")[0] for b in st.bases] for st in tree.body if isinstance(st, ast.ClassDef)}
     mod, classes = collect_constants(tree)
     info["constants"] = len(mod) + sum(len(v) for v in classes.values())
@@ -678,6 +690,9 @@ def normalise_module(tree: ast.Module):
     AppendLoops().visit(tree)
     Canon().visit(tree)
     LoopNorm().visit(tree)
+    from .normalize2 import DispatchSplit
+    if DispatchSplit(CLASS_NAMES).run(tree):
+        ast.fix_missing_locations(tree)
     for _ in range(3):
         helpers = collect_helpers(tree)
         if not helpers:
@@ -720,24 +735,24 @@ def normalise_module(tree: ast.Module):
     LoopNorm().visit(tree)
     info["copyprop_rounds"] = normalise_functions(tree)
     ast.fix_missing_locations(tree)
-    # records: reduce X(a, b).field, then give the simplified code one more round
-    again = False
-    if nts:
-        r = NamedTupleReduce(nts)
-        r.visit(tree)
-        again = r.changed
-    for fn in [n for n in ast.walk(tree) if isinstance(n, ast.FunctionDef)]:
-        again |= ForwardTemps().run(fn)
-    if again:
-        ast.fix_missing_locations(tree)
+    # records, single-use temporaries and class dispatch tables: each simplification can enable the others
+    from .normalize2 import Desugar
+    for _round in range(3):
+        again = False
         if nts:
-            NamedTupleReduce(nts).visit(tree)
-        from .normalize2 import Desugar
+            r = NamedTupleReduce(nts)
+            r.visit(tree)
+            again |= r.changed
+        for fn in [n for n in ast.walk(tree) if isinstance(n, ast.FunctionDef)]:
+            again |= ForwardTemps().run(fn)
+        ast.fix_missing_locations(tree)
+        again |= DispatchSplit(CLASS_NAMES).run(tree)
+        if not again:
+            break
+        ast.fix_missing_locations(tree)
         Desugar().visit(tree)
         LoopNorm().visit(tree)
         normalise_functions(tree)
-        if nts:
-            NamedTupleReduce(nts).visit(tree)
         ast.fix_missing_locations(tree)
     return info
 
@@ -753,6 +768,7 @@ READONLY_METHODS = {"tolist", "astype", "copy", "exists", "is_file", "lower", "u
 FRESH_METHODS = {"tolist", "astype", "copy", "keys", "values", "items"}
 
 
+CLASS_NAMES = set()  # names bound to classes in the module being normalised (own classes and imported capitalised names)
 EXTRA_PURE = set()  # names of record constructors (NamedTuple classes) of the module being normalised
 
 
@@ -880,6 +896,69 @@ def _in_pure_consumer_only(e):
     return ok(e, False)
 
 
+class BranchLocalRename:
+    """A name assigned in several sibling blocks (one assignment per block, every read of it inside the block that assigned
+    it, after the assignment) is a different variable in each block: give each its own name so that values can be followed."""
+
+    def run(self, fn):
+        stores = {}
+        loads = {}
+        for n in ast.walk(fn):
+            if isinstance(n, ast.Name):
+                d = stores if isinstance(n.ctx, (ast.Store, ast.Del)) else loads
+                d[n.id] = d.get(n.id, 0) + 1
+        params = {a.arg for a in fn.args.posonlyargs + fn.args.args + fn.args.kwonlyargs}
+        cands = {x for x, k in stores.items() if k > 1 and x not in params}
+        if not cands:
+            return False
+        blocks = []
+        for n in ast.walk(fn):
+            for fld in ("body", "orelse", "finalbody"):
+                sub = getattr(n, fld, None)
+                if isinstance(sub, list) and sub and isinstance(sub[0], ast.stmt) and n is not fn:
+                    blocks.append(sub)
+        changed = False
+        for x in sorted(cands):
+            sites = []  # (block, index)
+            okk = True
+            for b in blocks:
+                idx = [i for i, st in enumerate(b) if isinstance(st, ast.Assign) and len(st.targets) == 1 and isinstance(st.targets[0], ast.Name) and st.targets[0].id == x]
+                inner_stores = sum(1 for st in b for m in ast.walk(st) if isinstance(m, ast.Name) and m.id == x and isinstance(m.ctx, (ast.Store, ast.Del)))
+                if not idx:
+                    continue
+                if len(idx) != 1 or inner_stores != 1:
+                    okk = False
+                    break
+                i = idx[0]
+                if any(isinstance(m, ast.Name) and m.id == x for st in b[:i] for m in ast.walk(st)) or any(isinstance(m, ast.Name) and m.id == x and isinstance(m.ctx, ast.Load) for m in ast.walk(b[i].value)):
+                    okk = False
+                    break
+                sites.append((b, i))
+            if not okk or len(sites) != stores[x]:
+                continue
+            n_loads = sum(1 for b, i in sites for st in b[i + 1:] for m in ast.walk(st) if isinstance(m, ast.Name) and m.id == x and isinstance(m.ctx, ast.Load))
+            if n_loads != loads.get(x, 0):
+                continue
+            # nested sites (one block inside another) would be counted twice above: require disjoint blocks
+            ids = [id(b) for b, _ in sites]
+            nested = False
+            for b, i in sites:
+                inside = {id(sub) for st in b for m in ast.walk(st) for fld in ("body", "orelse", "finalbody") for sub in [getattr(m, fld, None)] if isinstance(sub, list)}
+                if any(j in inside for j in ids if j != id(b)):
+                    nested = True
+            if nested:
+                continue
+            for b, i in sites:
+                new = f"{x}__{next(_counter)}"
+                b[i].targets[0] = ast.copy_location(ast.Name(id=new, ctx=ast.Store()), b[i].targets[0])
+                for st in b[i + 1:]:
+                    for m in ast.walk(st):
+                        if isinstance(m, ast.Name) and m.id == x:
+                            m.id = new
+                changed = True
+        return changed
+
+
 class SSARename:
     """x = f(x) at the top level of a function body (x a parameter or an earlier top-level local, never stored anywhere else):
     later uses read a new single-assignment name, so that the value can be followed."""
@@ -954,7 +1033,7 @@ class CopyProp:
                     and (not any(isinstance(x, (ast.List, ast.Dict, ast.Set, ast.ListComp, ast.DictComp, ast.SetComp, ast.GeneratorExp))
                                  or (isinstance(x, ast.Call) and isinstance(x.func, ast.Attribute) and x.func.attr in FRESH_METHODS) for x in ast.walk(st.value))
                          or self.loads.get(st.targets[0].id) == 1 or _in_pure_consumer_only(st.value)) \
-                    and not (isinstance(st.value, ast.Constant) and st.value.value is None):
+                    and True:
                 name = st.targets[0].id
                 paths, names = _paths_read(st.value)
                 # the names read must themselves be stable from here on
@@ -1060,6 +1139,8 @@ class CopyProp:
 class Canon(ast.NodeTransformer):
     def visit_If(self, node):
         self.generic_visit(node)
+        if isinstance(node.test, ast.Constant) and isinstance(node.test.value, bool):
+            return (node.body if node.test.value else node.orelse) or [ast.copy_location(ast.Pass(), node)]
         # if T: x = E   ==>   x = E if T else x
         if not node.orelse and len(node.body) == 1 and isinstance(node.body[0], ast.Assign) and len(node.body[0].targets) == 1 \
                 and isinstance(node.body[0].targets[0], ast.Name):
@@ -1077,6 +1158,12 @@ class Canon(ast.NodeTransformer):
 
     def visit_Expr(self, node):
         self.generic_visit(node)
+        # setattr(x, "name", v)  ==>  x.name = v
+        v = node.value
+        if isinstance(v, ast.Call) and isinstance(v.func, ast.Name) and v.func.id == "setattr" and len(v.args) == 3 and not v.keywords \
+                and isinstance(v.args[1], ast.Constant) and isinstance(v.args[1].value, str) and v.args[1].value.isidentifier():
+            tgt = ast.Attribute(value=v.args[0], attr=v.args[1].value, ctx=ast.Store())
+            return ast.copy_location(ast.Assign(targets=[tgt], value=v.args[2], lineno=node.lineno), node)
         # A if c else B   as a statement   ==>   if c: A else: B
         if isinstance(node.value, ast.IfExp):
             ie = node.value
@@ -1097,6 +1184,13 @@ class Canon(ast.NodeTransformer):
 
     def visit_Assign(self, node):
         self.generic_visit(node)
+        # a = b = E   ==>   b = E; a = b      (one plain name among the targets)
+        if len(node.targets) > 1:
+            names = [t for t in node.targets if isinstance(t, ast.Name)]
+            if len(names) == 1 and names[0].id not in {x.id for t in node.targets if t is not names[0] for x in ast.walk(t) if isinstance(x, ast.Name)}:
+                first = ast.copy_location(ast.Assign(targets=[names[0]], value=node.value, lineno=node.lineno), node)
+                rest = [ast.copy_location(ast.Assign(targets=[t], value=ast.Name(id=names[0].id, ctx=ast.Load()), lineno=node.lineno), node) for t in node.targets if t is not names[0]]
+                return [first] + rest
         # (x,) = v   ==>   x = v[0]
         if len(node.targets) == 1 and isinstance(node.targets[0], (ast.Tuple, ast.List)) and len(node.targets[0].elts) == 1 \
                 and isinstance(node.targets[0].elts[0], ast.Name) and not isinstance(node.value, (ast.Tuple, ast.List)):
@@ -1128,6 +1222,8 @@ class Canon(ast.NodeTransformer):
 
     def visit_IfExp(self, node):
         self.generic_visit(node)
+        if isinstance(node.test, ast.Constant) and isinstance(node.test.value, bool):
+            return node.body if node.test.value else node.orelse
         # (P if E else None) is not None  ==>  E ; inside the branch where E holds the optional IS P
         oe = self._opt_elem(node.test)
         if oe is not None:
@@ -1146,8 +1242,84 @@ class Canon(ast.NodeTransformer):
             return ast.copy_location(ast.IfExp(test=copy.deepcopy(E), body=R().visit(node.orelse), orelse=node.body), node)
         return node
 
+    def visit_Compare(self, node):
+        self.generic_visit(node)
+        # a == b == c  ==>  a == b and b == c     (b free of calls)
+        if len(node.ops) > 1 and all(isinstance(o, (ast.Eq, ast.Is)) for o in node.ops) \
+                and not any(isinstance(x, ast.Call) for c in node.comparators[:-1] for x in ast.walk(c)):
+            items = [node.left] + list(node.comparators)
+            vals = [ast.Compare(left=copy.deepcopy(a), ops=[op], comparators=[copy.deepcopy(b)]) for a, op, b in zip(items, node.ops, items[1:])]
+            return ast.copy_location(ast.BoolOp(op=ast.And(), values=vals), node)
+        # K == x  ==>  x == K      (K a literal / enum member / constant name, x not)
+        if len(node.ops) == 1 and isinstance(node.ops[0], (ast.Eq, ast.NotEq)):
+            def constlike(e):
+                return isinstance(e, ast.Constant) or _enum_member(e) or (isinstance(e, ast.Name) and e.id.isupper())
+            if constlike(node.left) and not constlike(node.comparators[0]) and not any(isinstance(x, ast.Call) for x in ast.walk(node.comparators[0])):
+                return ast.copy_location(ast.Compare(left=node.comparators[0], ops=node.ops, comparators=[node.left]), node)
+            # <Class or None> is/== None
+        if len(node.ops) == 1 and isinstance(node.ops[0], (ast.Is, ast.IsNot)) and isinstance(node.comparators[0], ast.Constant) and node.comparators[0].value is None:
+            l = node.left
+            if isinstance(l, ast.Constant) and l.value is None:
+                return ast.copy_location(ast.Constant(value=isinstance(node.ops[0], ast.Is)), node)
+            if (isinstance(l, ast.Name) and l.id in CLASS_NAMES) or (isinstance(l, ast.Attribute) and isinstance(l.value, ast.Name) and l.value.id in CLASS_NAMES
+                                                                     and l.attr in ("_build", "_write", "build", "write")):
+                return ast.copy_location(ast.Constant(value=isinstance(node.ops[0], ast.IsNot)), node)
+        return node
+
+    def visit_With(self, node):
+        self.generic_visit(node)
+        if len(node.items) == 1 and node.items[0].optional_vars is None:
+            ce = node.items[0].context_expr
+            # with nullcontext(x): body  ==>  body
+            if isinstance(ce, ast.Call) and ast.unparse(ce.func) in ("nullcontext", "contextlib.nullcontext"):
+                return node.body
+            # with (A if c else B): body  ==>  if c: with A: body  else: with B: body
+            if isinstance(ce, ast.IfExp):
+                mk = lambda e: self.visit_With(ast.copy_location(ast.With(items=[ast.withitem(context_expr=e, optional_vars=None)], body=copy.deepcopy(node.body)), node))
+                a, b = mk(ce.body), mk(ce.orelse)
+                return ast.copy_location(ast.If(test=ce.test, body=a if isinstance(a, list) else [a], orelse=b if isinstance(b, list) else [b]), node)
+        return node
+
     def visit_Call(self, node):
         self.generic_visit(node)
+        fname = ast.unparse(node.func) if isinstance(node.func, (ast.Name, ast.Attribute)) else ""
+        # (f if c else g)(args)  ==>  f(args) if c else g(args)      (arguments free of calls)
+        if isinstance(node.func, ast.IfExp) and not any(isinstance(x, ast.Call) for a in list(node.args) + [k.value for k in node.keywords] for x in ast.walk(a)):
+            mk = lambda f: ast.Call(func=f, args=copy.deepcopy(node.args), keywords=copy.deepcopy(node.keywords))
+            return ast.copy_location(ast.IfExp(test=node.func.test, body=mk(node.func.body), orelse=mk(node.func.orelse)), node)
+        # list() / dict()  ==>  [] / {}
+        if fname == "list" and not node.args and not node.keywords:
+            return ast.copy_location(ast.List(elts=[], ctx=ast.Load()), node)
+        if fname == "dict" and not node.args and not node.keywords:
+            return ast.copy_location(ast.Dict(keys=[], values=[]), node)
+        # setattr(x, "name", v) is handled at statement level (visit_Expr)
+        # {K1: V1, ..}.get(k)  ==>  V1 if k == K1 else (.. else None)
+        if isinstance(node.func, ast.Attribute) and node.func.attr == "get" and isinstance(node.func.value, ast.Dict) and 1 <= len(node.args) <= 2 and not node.keywords \
+                and node.func.value.keys and all(k is not None for k in node.func.value.keys) and not any(isinstance(x, ast.Call) for x in ast.walk(node.args[0])):
+            d = node.func.value
+            out = node.args[1] if len(node.args) == 2 else ast.Constant(value=None)
+            for k, v in reversed(list(zip(d.keys, d.values))):
+                out = ast.IfExp(test=ast.Compare(left=copy.deepcopy(node.args[0]), ops=[ast.Eq()], comparators=[k]), body=v, orelse=out)
+            return ast.copy_location(out, node)
+        # sum(G, start)  ==>  start + sum(G) ;  sum(E for v in (a, b, c))  ==>  E[a] + E[b] + E[c]
+        if fname == "sum" and len(node.args) == 2 and not node.keywords:
+            return ast.copy_location(ast.BinOp(left=node.args[1], op=ast.Add(), right=self.visit_Call(ast.Call(func=node.func, args=[node.args[0]], keywords=[]))), node)
+        if fname == "sum" and len(node.args) == 1 and isinstance(node.args[0], (ast.GeneratorExp, ast.ListComp)) and len(node.args[0].generators) == 1:
+            g = node.args[0].generators[0]
+            if isinstance(g.iter, (ast.Tuple, ast.List)) and 0 < len(g.iter.elts) <= 8 and not g.ifs and isinstance(g.target, ast.Name):
+                vals = [self.visit(_subst_names(node.args[0].elt, {g.target.id: e})) for e in g.iter.elts]
+                out = vals[0]
+                for v in vals[1:]:
+                    out = ast.BinOp(left=out, op=ast.Add(), right=v)
+                return ast.copy_location(out, node)
+        # next((True for .. if c), False)  ==>  any(c for ..)
+        if fname == "next" and len(node.args) == 2 and isinstance(node.args[0], ast.GeneratorExp) and len(node.args[0].generators) == 1 \
+                and isinstance(node.args[0].elt, ast.Constant) and node.args[0].elt.value is True and isinstance(node.args[1], ast.Constant) and node.args[1].value is False:
+            g = node.args[0].generators[0]
+            if g.ifs:
+                cond = g.ifs[0] if len(g.ifs) == 1 else ast.BoolOp(op=ast.And(), values=g.ifs)
+                gen = ast.GeneratorExp(elt=cond, generators=[ast.comprehension(target=g.target, iter=g.iter, ifs=[], is_async=0)])
+                return ast.copy_location(ast.Call(func=ast.Name(id="any", ctx=ast.Load()), args=[gen], keywords=[]), node)
         # getattr(x, "name")  ==>  x.name
         if isinstance(node.func, ast.Name) and node.func.id == "getattr" and len(node.args) == 2 and not node.keywords \
                 and isinstance(node.args[1], ast.Constant) and isinstance(node.args[1].value, str) and node.args[1].value.isidentifier():
@@ -1161,6 +1333,26 @@ class Canon(ast.NodeTransformer):
                 op = ast.And() if node.func.id == "all" else ast.Or()
                 return ast.copy_location(vals[0] if len(vals) == 1 else ast.BoolOp(op=op, values=vals), node)
         return node
+
+    def _fuse(self, node):
+        # [F(v) for v in (E for x in IT)]  ==>  [F(E) for x in IT]
+        if len(node.generators) == 1 and not node.generators[0].ifs and isinstance(node.generators[0].target, ast.Name) \
+                and isinstance(node.generators[0].iter, (ast.GeneratorExp, ast.ListComp)) and len(node.generators[0].iter.generators) == 1:
+            inner = node.generators[0].iter
+            v = node.generators[0].target.id
+            uses = sum(1 for x in ast.walk(node.elt) if isinstance(x, ast.Name) and x.id == v)
+            if uses == 1 or not any(isinstance(x, ast.Call) for x in ast.walk(inner.elt)):
+                node.elt = _subst_names(node.elt, {v: inner.elt})
+                node.generators = inner.generators
+        return node
+
+    def visit_ListComp(self, node):
+        self.generic_visit(node)
+        return self._fuse(node)
+
+    def visit_GeneratorExp(self, node):
+        self.generic_visit(node)
+        return self._fuse(node)
 
     def visit_UnaryOp(self, node):
         self.generic_visit(node)
@@ -1217,6 +1409,20 @@ class Canon(ast.NodeTransformer):
                         x.ctx = ast.Store()
                 test = ast.Call(func=ast.Name(id="any", ctx=ast.Load()), args=[gen], keywords=[])
                 return ast.copy_location(ast.If(test=test, body=[rs], orelse=[]), node)
+        # for i, e in enumerate(X): body (i unused)   ==>   for e in X: body
+        it0 = node.iter
+        if isinstance(it0, ast.Call) and isinstance(it0.func, ast.Name) and it0.func.id == "enumerate" and it0.args and isinstance(node.target, ast.Tuple) \
+                and len(node.target.elts) == 2 and isinstance(node.target.elts[0], ast.Name) and not node.orelse:
+            iv = node.target.elts[0].id
+            if not any(isinstance(x, ast.Name) and x.id == iv for s_ in node.body for x in ast.walk(s_)):
+                node = ast.copy_location(ast.For(target=node.target.elts[1], iter=it0.args[0], body=node.body, orelse=[], type_comment=None), node)
+        # for v in X: a, b = v; body (v not used again)   ==>   for a, b in X: body
+        if isinstance(node.target, ast.Name) and node.body and isinstance(node.body[0], ast.Assign) and len(node.body[0].targets) == 1 \
+                and isinstance(node.body[0].targets[0], (ast.Tuple, ast.List)) and isinstance(node.body[0].value, ast.Name) and node.body[0].value.id == node.target.id \
+                and all(isinstance(t, ast.Name) for t in node.body[0].targets[0].elts) and len(node.body) > 1 and not node.orelse \
+                and not any(isinstance(x, ast.Name) and x.id == node.target.id for s_ in node.body[1:] for x in ast.walk(s_)):
+            tgt = ast.Tuple(elts=[ast.Name(id=t.id, ctx=ast.Store()) for t in node.body[0].targets[0].elts], ctx=ast.Store())
+            node = ast.copy_location(ast.For(target=tgt, iter=node.iter, body=node.body[1:], orelse=[], type_comment=None), node)
         # for n in range(a, len(L)): e = L[n]; ...   ==>   for n, e in enumerate(L[a:], start=a): ...
         it = node.iter
         if isinstance(node.target, ast.Name) and isinstance(it, ast.Call) and isinstance(it.func, ast.Name) and it.func.id == "range" \
@@ -1396,6 +1602,7 @@ def normalise_functions(tree):
     for node in ast.walk(tree):
         if isinstance(node, ast.FunctionDef):
             SSARename().run(node)
+            BranchLocalRename().run(node)
             for _ in range(4):
                 if not CopyProp().run(node):
                     break
